@@ -148,7 +148,11 @@ def multitask_program(T, N, n_ops):
                 else:
                     if not any(ref):
                         continue
-                    batch = mt.sample_batch(2, rng=RngStub(f"rng{i}"))
+                    try:
+                        batch = mt.sample_batch(2, rng=RngStub(f"rng{i}"))
+                    except Exception as ex:  # some task has data, so a batch must be produced from it
+                        ctx.log.append(f"sample_batch raised {type(ex).__name__}: {ex}")
+                        ctx.check(False, "batch-comes-from-a-task-that-already-has-data")
                     src = int(mt.sampled_task_idx)
                     ctx.check(len(ref[src]) > 0, "batch-comes-from-a-task-that-already-has-data")
                     live = ref[src][-N:]
